@@ -261,6 +261,7 @@ func checkC15(r *Result) {
 	// ---- 1. validator set hash: keccak256(abi.encode(Validator[]))
 	if fn := need("(x/bridge/keeper.Keeper).EncodeAndHashValidatorSet"); fn != nil {
 		packs := goPacks(fn)
+		direct := false
 		vs := sol.Structs["Validator"]
 		var want []string
 		var roles []string
@@ -279,7 +280,9 @@ func checkC15(r *Result) {
 					srcs = append(srcs, tm.Of(e).String())
 				}
 			}
-			okRoles := len(srcs) == 2 && strings.Contains(srcs[0], "Validator.Addr") && strings.Contains(srcs[1], "Validator.Power") && len(roles) == 2 && roles[0] == "addr" && roles[1] == "power"
+			// through the local Validator struct, or straight from the bridge validator's fields
+			direct = len(srcs) == 2 && strings.Contains(srcs[0], "BridgeValidator.EthereumAddress") && strings.Contains(srcs[1], "BridgeValidator.Power")
+			okRoles := len(srcs) == 2 && (direct || (strings.Contains(srcs[0], "Validator.Addr") && strings.Contains(srcs[1], "Validator.Power"))) && len(roles) == 2 && roles[0] == "addr" && roles[1] == "power"
 			r.check(okRoles, "ABI-ROLES", "EncodeAndHashValidatorSet packs (address, power) in the struct's member order", where(packs[0].pos), fmt.Sprintf("Solidity members %v", roles))
 		} else {
 			r.bad("ABI-TYPES", "EncodeAndHashValidatorSet element tuple == struct Validator", P.Pos(fn.Pos()), fmt.Sprintf("%d Pack calls found", len(packs)))
@@ -303,7 +306,7 @@ func checkC15(r *Result) {
 				}
 			}
 		}
-		r.check(okFill == 2, "ABI-ROLES", "EncodeAndHashValidatorSet fills (addr, power) from (EthereumAddress, Power)", P.Pos(fn.Pos()), fmt.Sprintf("%d of 2 field fills recognised", okFill))
+		r.check(okFill == 2 || direct, "ABI-ROLES", "EncodeAndHashValidatorSet fills (addr, power) from (EthereumAddress, Power)", P.Pos(fn.Pos()), fmt.Sprintf("%d of 2 field fills recognised", okFill))
 		// hand-rolled dynamic-array head: offset constant 32, length word = len(validators)
 		off, ln := false, false
 		for _, cs := range P.CallSitesIn(fn) {
